@@ -9,8 +9,23 @@ from common import ModelError, R, cfl, fl, max_rel_err
 
 from common import wiring_pre_build as pre_build  # noqa: E402,F401
 
-LEAN_MODULES = ["PyomaVerif.Props.C04", "PyomaVerif.Mutants.C04", "PyomaVerif.Props.WiringRun", "PyomaVerif.Props.C04C13"]
+LEAN_MODULES = ["PyomaVerif.Props.C04", "PyomaVerif.Mutants.C04", "PyomaVerif.Props.WiringRun", "PyomaVerif.Props.C04C13",
+                "PyomaVerif.Props.C04C06"]
 THEOREMS = [
+    # C04 o C06 (o C13): multi-setup FDD end to end (Props/C04C06.lean)
+    "PV.C04C06.sdEst_rank_one_entry",
+    "PV.C04C06.sdEst_superposition",
+    "PV.C04C06.sdEst_rows_of_ref",
+    "PV.C04C06.C04C06_transmissibility",
+    "PV.C04C06.C04C06_setup_rank_one",
+    "PV.C04C06.C04C06_ref_block_singular",
+    "PV.C04C06.C04C06_linalg_error",
+    "PV.C04C06.C04C06_merged_rank_one",
+    "PV.C04C06.C04C06_one_ref_index_error",
+    "PV.C04C06.C04C06_shape_at_line",
+    "PV.C04C06.ex_shape_per",
+    "PV.C04C06.ex_shape_cor",
+    "PV.C04C06.ex_leftInv2",
     "PV.C04C13.sdEst_shape",
     "PV.C04C13.sdEst_pairwise",
     "PV.C04C13.sdEst_homog",
@@ -271,7 +286,8 @@ def gen_setups(ctx, nxmax, identical_refs=None, nxmin=8):
         if rng.random() < 0.3:
             s = 10.0 ** rng.uniform(-2, 2)
             ref, mov = s * ref, s * mov
-        Y.append({"ref": ref, "mov": mov})
+        # the keys' insertion order carries no meaning
+        Y.append({"ref": ref, "mov": mov} if rng.random() < 0.6 else {"mov": mov, "ref": ref})
     fs = rng.choice([1.0, 10.0, 100.0, 128.0, 51.2, 1000.0, 3.0, 0.7, round(rng.uniform(0.5, 500), 3)])
     method = rng.choice(["per", "cor"])
     pov = rng.choice([0.0, 0.25, 0.5, 0.75, 0.1, 0.6, round(rng.uniform(0, 0.9), 3)])
@@ -508,6 +524,9 @@ def oracle_case(ctx, seed, quick, via, force=None):
         from pyoma2.functions.gen import pre_multisetup
 
         Y = pre_multisetup(datasets, ref_ind)
+        if ctx.rng.random() < 0.5:
+            Y = [{"mov": y["mov"], "ref": y["ref"]} for y in Y]
+            ctx.count("setup_dict_mov_first")
         freq, Sy = fdd.SD_PreGER(Y, fs, nxseg=nxseg, pov=pov, method=method)
     else:
         from pyoma2.algorithms.fdd import EFDD_MS, FDD_MS
